@@ -8,20 +8,20 @@ import (
 )
 
 // Emit writes one raw line of the history format.
-func (h *H) Emit(format string, a ...interface{}) { h.emit(format, a...) }
+func (h *H) CfEmit(format string, a ...interface{}) { h.emit(format, a...) }
 
 // LogLen is the number of lines emitted so far.
-func (h *H) LogLen() int { return len(h.Log) }
+func (h *H) CfLogLen() int { return len(h.Log) }
 
 // ShID returns the script-hash id of a 32-byte script hash (allocating one if new).
-func (h *H) ShID(b []byte) int { return h.sh(b) }
+func (h *H) CfShID(b []byte) int { return h.sh(b) }
 
 // BlockID returns the id the history format uses for a block.
-func (h *H) BlockID(b *massutil.Block) int { return h.BlkID[*b.Hash()] }
+func (h *H) CfBlockID(b *massutil.Block) int { return h.BlkID[*b.Hash()] }
 
 // AddForeignWallet registers a wallet that exists elsewhere (its addresses are payees of the
 // generator, the wallet manager does not know it yet); returns its number.
-func (h *H) AddForeignWallet(wi *WInfo) int {
+func (h *H) CfAddForeignWallet(wi *WInfo) int {
 	wi.Num = len(h.Wallets) + 1
 	for _, a := range wi.Addrs {
 		a.Sh = h.sh(a.ShBytes)
@@ -30,10 +30,5 @@ func (h *H) AddForeignWallet(wi *WInfo) int {
 	return wi.Num
 }
 
-// DropWallet removes a wallet from the generator's payee/observation list (index in Wallets).
-func (h *H) DropWallet(i int) {
-	h.Wallets = append(h.Wallets[:i:i], h.Wallets[i+1:]...)
-}
-
 // SetStale marks whether the wallet has accepted the node's tip.
-func (h *H) SetStale(v bool) { h.Stale = v }
+func (h *H) CfSetStale(v bool) { h.Stale = v }
